@@ -48,7 +48,6 @@ struct Runner
   std::vector<std::unique_ptr<CB>> owner;
   std::vector<tainted<int*, S>> lastp;
   std::vector<tainted<int**, S>> lastcell; // a pointer cell in sandbox memory (for the tainted_volatile form of free)
-  uint64_t free_forms = 0;
   // model
   std::vector<St> st;
   std::vector<int> lib;           // library of the current incarnation
@@ -159,7 +158,8 @@ struct Runner
       case O_FREE: {
         // the three forms of free_in_sandbox: tainted pointer, reference to a pointer cell in sandbox memory, opaque pointer.
         // Outside the window the cell form must not even read the cell (the memory may be gone: the model unmaps it)
-        int form = static_cast<int>(free_forms++ % 3);
+        // chosen by the history so far (deterministic per history, so a replay takes the same form)
+        int form = static_cast<int>(std::hash<std::string>()(hist) % 3);
         if (form == 1 && st[o] == CR) {
           tainted<int**, S> cell = nullptr;
           bool abm = mon::aborts([&] { cell = s.malloc_in_sandbox<int*>(); });
